@@ -152,9 +152,14 @@ FlowSeqItems(t, st, n, d, cnt, ml) ==
                    THEN LET k == Leaf(t, st1) IN R(KTxt(k) \o <<":">>, <<E0("MappingStart")>> \o k.evs \o <<Null, E0("MappingEnd")>>, StOf(k))
                    ELSE IF c = 3   \* : v  (empty key)
                    THEN LET v == FlowNode(t, st1, n, d) IN R(<<":", " ">> \o v.txt, <<E0("MappingStart"), Null>> \o v.evs \o <<E0("MappingEnd")>>, StOf(v))
-                   ELSE IF c = 4   \* ? k : v
-                   THEN LET k == FlowNode(t, st1, n, d) v == FlowNode(t, StOf(k), n, d) IN
-                        R(<<"?", " ">> \o k.txt \o <<" ", ":", " ">> \o v.txt, <<E0("MappingStart")>> \o k.evs \o v.evs \o <<E0("MappingEnd")>>, StOf(v))
+                   ELSE IF c = 4   \* ? k : v   |  ? k :  (empty value)  |  ? k  (no value)  |  ?  (empty key and value)
+                   THEN LET form == Cell(t, st1.i) % 4 IN
+                        IF form = 3 THEN R(<<"?", " ">>, <<E0("MappingStart"), Null, Null, E0("MappingEnd")>>, Adv(st1, 1))
+                        ELSE LET k == FlowNode(t, Adv(st1, 1), n, d) IN
+                             IF form = 2 THEN R(<<"?", " ">> \o k.txt \o <<" ">>, <<E0("MappingStart")>> \o k.evs \o <<Null, E0("MappingEnd")>>, StOf(k))
+                             ELSE IF form = 1 THEN R(<<"?", " ">> \o k.txt \o <<" ", ":", " ">>, <<E0("MappingStart")>> \o k.evs \o <<Null, E0("MappingEnd")>>, StOf(k))
+                             ELSE LET v == FlowNode(t, StOf(k), n, d) IN
+                                  R(<<"?", " ">> \o k.txt \o <<" ", ":", " ">> \o v.txt, <<E0("MappingStart")>> \o k.evs \o v.evs \o <<E0("MappingEnd")>>, StOf(v))
                    ELSE FlowNode(t, st1, n, d)
            trail == FSep(t, item.i, n, ml)
            sep == IF cnt > 1 THEN <<",">> ELSE IF (Cell(t, item.i + 1) % 4) = 3 THEN <<",">> \o FSep(t, item.i + 2, n, ml) ELSE <<>>
@@ -170,9 +175,13 @@ FlowMapItems(t, st, n, d, cnt, ml) ==
                    THEN LET k == Leaf(t, st1) IN R(k.txt, k.evs \o <<Null>>, StOf(k))
                    ELSE IF c = 2   \* k:
                    THEN LET k == Leaf(t, st1) IN R(KTxt(k) \o <<":">>, k.evs \o <<Null>>, StOf(k))
-                   ELSE IF c = 3   \* ? k : v
-                   THEN LET k == FlowNode(t, st1, n, d) v == FlowNode(t, StOf(k), n, d) IN
-                        R(<<"?", " ">> \o k.txt \o <<" ", ":", " ">> \o v.txt, k.evs \o v.evs, StOf(v))
+                   ELSE IF c = 3   \* ? k : v   |  ? k :  |  ? k
+                   THEN LET form == Cell(t, st1.i) % 3
+                            k == FlowNode(t, Adv(st1, 1), n, d) IN
+                        IF form = 2 THEN R(<<"?", " ">> \o k.txt \o <<" ">>, k.evs \o <<Null>>, StOf(k))
+                        ELSE IF form = 1 THEN R(<<"?", " ">> \o k.txt \o <<" ", ":", " ">>, k.evs \o <<Null>>, StOf(k))
+                        ELSE LET v == FlowNode(t, StOf(k), n, d) IN
+                             R(<<"?", " ">> \o k.txt \o <<" ", ":", " ">> \o v.txt, k.evs \o v.evs, StOf(v))
                    ELSE LET k == Leaf(t, st1) v == FlowNode(t, StOf(k), n, d) IN
                         R(KTxt(k) \o <<":", " ">> \o v.txt, k.evs \o v.evs, StOf(v))
            trail == FSep(t, item.i, n, ml)
